@@ -32,6 +32,28 @@ pub fn normalise(text: &str, info: &tomlref::Info) -> String {
     String::from_utf8(out).unwrap()
 }
 
+/// The whole of C03 on one text that was not built from a tree (fixture, fuzz input): if the
+/// reference says it is valid (and outside U1 / limits), the weak oracles must hold, and when the
+/// keys sharing a dotted prefix are adjacent the print-back must equal the reference-based
+/// normalisation - `tolerate_f11` accepts differences matching known finding F11's signature.
+pub fn check_text(text: &str, tolerate_f11: bool) -> Result<(), Failure> {
+    if text.contains("$__") {
+        return Ok(());
+    }
+    let (v, info) = tomlref::decode(text);
+    let Verdict::Valid(tree) = v else { return Ok(()) };
+    let Ok(doc) = text.parse::<toml_edit::DocumentMut>() else { return Ok(()) };
+    let out = doc.to_string();
+    let comments: Vec<String> = vec![];
+    weak_oracles(&Weak { text, expected: &tree, comments: &comments }, &out, "weak")?;
+    let norm = normalise(text, &info);
+    let adjacent = tomlref::parse_syntax(text).0.map(|s| is_adjacent(&s)).unwrap_or(false);
+    if adjacent && out != norm && !(tolerate_f11 && f11_signature(text, &norm, &out)) {
+        return Err(Failure::new("exact", format!("print-back differs from the input (after the three allowed normalisations)\n--- input\n{text:?}\n--- expected\n{norm:?}\n--- printed\n{out:?}\n"), json!({"text": text, "printed": out})));
+    }
+    Ok(())
+}
+
 pub struct Weak<'a> {
     pub text: &'a str,
     pub expected: &'a Tbl,
@@ -192,7 +214,16 @@ pub fn run(args: Args) -> ! {
     ];
     KNOWN_F11.store(rep.is_known("F11"), std::sync::atomic::Ordering::Relaxed);
     let replay_one = |rep: &mut Report, p: &str, sub: &str| {
-        let j = super::load_replay(p);
+        let j = super::load_replay_any(p);
+        if j["raw"] == true {
+            if let Some(t) = j["case"]["text"].as_str() {
+                rep.stats.eval();
+                if let Err(f) = check_text(t, rep.is_known("F11")) {
+                    rep.violation(sub, None, &f);
+                }
+            }
+            return;
+        }
         let tape = super::replay_tape(&j);
         let which = j["sub"].as_str().unwrap_or("adjacent").to_string();
         let mut st = Stats::new();
